@@ -256,6 +256,8 @@ func runC17(c *Ctx) {
 	c.rule("R7", "a reply without TC is returned whole: the datagram reader's buffer is a constant of at least 4095 bytes and the reply handed on is exactly the bytes read", 1)
 	checkDatagramReadBuffer(c)
 	// ---------------------------------------------------------------- R8
+	c.rule("R9", "a TCP reply of any size the length field can express reaches the caller: the frame reader has no length cap besides the 12-byte minimum, is not re-entered after a framing error and gets the connection itself", 6)
+	checkFrameDiscipline(c)
 	c.rule("R8", "the reply channel the TCP exchange waits on is made for that exchange, and replies are matched to it by a per-connection wire id (a late or surplus reply of an earlier query never reaches the fallback's caller)", 5)
 	lf := p.newLockFacts()
 	lf.analyseScope(p.funcsIn(relTransport))
